@@ -223,7 +223,7 @@ func c11CallSites(r *Report, p *Prog, arch string, contracts map[string]*xContra
 				// assumed range of the configured tag size
 				for _, l := range subst {
 					for k := range l.T {
-						if strings.HasSuffix(k, ".tagSize") {
+						if isTagSizeTerm(p, k) {
 							facts = append(facts, Fact{E: L(k).Sub(linConst(12))}, Fact{E: linConst(16).Sub(L(k))})
 						}
 					}
@@ -493,7 +493,7 @@ func proveWithCallers(p *Prog, fn *ssa.Function, E *Lin, facts []Fact, depth int
 					cf = append(cf, hyp...)
 					for _, l := range []*Lin{sub} {
 						for k := range l.T {
-							if strings.HasSuffix(k, ".tagSize") {
+							if isTagSizeTerm(p, k) {
 								cf = append(cf, Fact{E: L(k).Sub(linConst(12))}, Fact{E: linConst(16).Sub(L(k))})
 							}
 						}
